@@ -254,7 +254,7 @@ func main() {
 	printedKnown := map[string]bool{}
 	for _, o := range obls {
 		if *verbose {
-			fmt.Fprintf(os.Stderr, "    %-9s %-70s %s %s\n", o.Status, o.Name, o.Pos, o.Descr)
+			fmt.Fprintf(os.Stderr, "    %-9s %-70s %6dms %s %s\n", o.Status, o.Name, o.Ms, o.Pos, o.Descr)
 		}
 		solverMs += o.Ms
 		if o.ExpectSat {
@@ -658,6 +658,18 @@ func writeEvidence(verif, prop, tier string, e *Engine, keys []string, reports [
 		}
 		samples = append(samples, map[string]interface{}{"obligation": o.Name, "clause": o.Clause, "status": o.Status, "solver": o.Solver, "ms": o.Ms, "pos": o.Pos})
 	}
+	// the slowest obligations of this run (slow queries are the unstable ones: candidates for an intermediate lemma)
+	var slow []*Obligation
+	for _, o := range obls {
+		if !o.ExpectSat && o.Status == "proved" {
+			slow = append(slow, o)
+		}
+	}
+	sort.Slice(slow, func(i, j int) bool { return slow[i].Ms > slow[j].Ms })
+	var slowest []map[string]interface{}
+	for i := 0; i < len(slow) && i < 8; i++ {
+		slowest = append(slowest, map[string]interface{}{"obligation": slow[i].Name, "ms": slow[i].Ms, "solver": slow[i].Solver})
+	}
 	var trusted []string
 	trusted = append(trusted, "VC generator /verif/engine (Go subset semantics, DESIGN.md 2.3) — guarded by covers, canaries and the selftest corpus")
 	trusted = append(trusted, "SMT solvers z3 5.1.0, z3 4.8.12, cvc5 1.0.3")
@@ -738,6 +750,7 @@ func writeEvidence(verif, prop, tier string, e *Engine, keys []string, reports [
 			"discharged_by":            bySolver,
 			"solver_time_s":            solverS,
 			"samples":                  samples,
+			"slowest":                  slowest,
 			"not_checked":              notChecked,
 			"report_lines":             lines,
 			"vacuous_sites":            vacSites,
